@@ -36,8 +36,9 @@ fn fvalue(v: &CoreValue) -> FValue {
 }
 
 fn amount_dbg(v: &CoreValue, unit: Option<&str>) -> String {
-    // `Amount` has crate-private fields: compare through its Debug rendering
-    format!("Amount {{ quantity: {:?}, units: {:?} }}", fvalue(v), unit.map(String::from))
+    // `Amount` has crate-private fields: the expected value is built with the verification hook
+    // and both sides are rendered with the same Debug impl
+    format!("{:?}", Amount::verif_new(fvalue(v), unit.map(String::from)))
 }
 
 fn check_mirror(src: &str, factor: f64, st: &mut Stats) -> Result<Option<(Vec<FIngredient>, Vec<Option<(CoreValue, Option<String>)>>)>, Violation> {
@@ -308,7 +309,7 @@ fn check(c: &Case, st: &mut Stats) -> Verdict {
 pub fn run(tier: Tier) -> i32 {
     let mut run = Run::new("C19", tier);
     run.assume("the bindings crate is compiled as an rlib from /repo/bindings/src/lib.rs through a shadow manifest (the real crate types are cdylib/staticlib)");
-    run.assume("Amount has crate-private fields: it is compared through its Debug rendering; a timer name None is equivalent to Some(\"\"); text concatenation order in combined text entries is not constrained");
+    run.assume("Amount has crate-private fields: expected values are built with the hook constructor and compared through the type's own Debug rendering; a timer name None is equivalent to Some(\"\"); text concatenation order in combined text entries is not constrained");
     run.replay_regressions(&|p, j| replay(p, j));
     if !run.failed() {
         run_prop(
